@@ -34,7 +34,8 @@ func c11M(v int) string {
 	if v == 1 {
 		inc = "; X is not included\n"
 	}
-	return "include Q.journal\n" + inc + "\n2001-01-01 m\n    m:acc  1 USD\n    q:one  -1 USD\n\n2001-01-02 typing\n    \n"
+	// X comes first: when it is dropped and put back it must come first again
+	return inc + "include Q.journal\n" + "\n2001-01-01 m\n    m:acc  1 USD\n    q:one  -1 USD\n\n2001-01-02 typing\n    \n"
 }
 
 func c11MX(v int) string {
@@ -57,13 +58,18 @@ const c11Q = "2001-03-01 q\n    q:one  8 USD\n    q:two  -8 USD\n\n2001-03-02 ty
 var c11MemOps = []string{"open:M", "openother:M", "change:M", "save:M", "close:M", "open:X", "openother:X", "change:X", "save:X", "close:X", "open:Y", "openother:Y", "change:Y", "save:Y", "close:Y", "ask:M"}
 
 func c11Labels(r wire.Reply) []string {
+	out := c11LabelsInOrder(r)
+	sort.Strings(out)
+	return out
+}
+
+func c11LabelsInOrder(r wire.Reply) []string {
 	var v struct{ Items []struct{ Label string } }
 	_ = json.Unmarshal([]byte(r.Result), &v)
 	var out []string
 	for _, it := range v.Items {
 		out = append(out, it.Label)
 	}
-	sort.Strings(out)
 	return out
 }
 
@@ -91,6 +97,7 @@ func c11MemObserve(s *wire.Session, dir string, mOpen bool, diskM int) (obs stri
 	fmt.Fprintf(&b, "Q.hover=%s\n", s.Call("textDocument/hover", wire.DocPos(qu, 1, 6)).Result)
 	fmt.Fprintf(&b, "Q.references=%s\n", s.Call("textDocument/references", fmt.Sprintf(`{"textDocument":{"uri":%s},"position":{"line":1,"character":6},"context":{"includeDeclaration":true}}`, wire.Q(qu))).Result)
 	fmt.Fprintf(&b, "M.completion=%s\n", strings.Join(c11Labels(s.Call("textDocument/completion", wire.DocPos(mu, mTyping, 4))), ","))
+	fmt.Fprintf(&b, "M.completion in the order given=%s\n", strings.Join(c11LabelsInOrder(s.Call("textDocument/completion", wire.DocPos(mu, mTyping, 4))), ","))
 	fmt.Fprintf(&b, "M.hover=%s\n", s.Call("textDocument/hover", wire.DocPos(mu, 5, 6)).Result)
 	fmt.Fprintf(&b, "wsymbol=%s\n", s.Call("workspace/symbol", `{"query":"p"}`).Result)
 	return strings.ReplaceAll(b.String(), dir, ""), qLabels
